@@ -28,7 +28,10 @@ CONSTANTS
     MaxDepth,   \* bound on the number of ops
     KeepHistory,\* TRUE: ops/obs hold the whole behaviour; FALSE: only the last op (long scripted runs)
     UseScript,  \* FALSE: explore freely over the alphabets; TRUE: execute exactly the ops of Script
-    Script      \* the op sequence of a scripted run (evaluated once, in Init)
+    Script,     \* the op sequence of a scripted run (evaluated once, in Init)
+    FreeIds,    \* the instances that receive freely chosen inputs (the others only act in continuations)
+    Conts       \* continuations: op sequences that may be started from any freely explored state and then run
+                \* to their end without interruption (reset / checkpoint / clone followed by a fixed continuation)
 
 VARIABLES inst, blobs, ops, obs, pos,
           rest    \* the part of the script not yet executed
@@ -44,11 +47,13 @@ Fresh(c) ==
      ref  |-> RefInit(c.kind, ParamsOf(c)),
      impl |-> ImplInit(c.kind, ParamsOf(c)),
      t |-> 0, taint |-> FALSE,
+     age |-> 0,          \* calls since a non-finite value first entered (0 = untainted)
      ro |-> <<>>,        \* reference fields of the last step
      io |-> <<>>]        \* implementation-model outputs of the last step
 
 NewOp(i) == [op |-> "new", i |-> i, kind |-> CfgOf[i].kind,
-             per |-> <<CfgOf[i].n, CfgOf[i].n2, CfgOf[i].n3>>, m |-> CfgOf[i].m, seed |-> CfgOf[i].seed]
+             per |-> <<CfgOf[i].n, CfgOf[i].n2, CfgOf[i].n3>>, m |-> CfgOf[i].m, seed |-> CfgOf[i].seed,
+             mem |-> Memory(CfgOf[i].kind, ParamsOf(CfgOf[i]))]
 NoObs == [t |-> 0]
 
 RECURSIVE SeqOfSet(_)
@@ -68,7 +73,6 @@ Log(op, ob) ==
     /\ ops' = IF KeepHistory THEN Append(ops, op) ELSE <<op>>
     /\ obs' = IF KeepHistory THEN Append(obs, ob) ELSE <<ob>>
     /\ pos' = pos + 1
-    /\ rest' = IF rest = <<>> THEN rest ELSE Tail(rest)
 
 ---------------------------------------------------------------------------
 InToOp(i, in) == IF in.ty = "s" THEN [op |-> "s", i |-> i, x |-> in.x]
@@ -82,7 +86,7 @@ Feed(i, in) ==
        IF I.taint
        THEN \* a non-finite value entered since the last reset: the call must return, nothing else is promised;
             \* the Minimum/Maximum cursors still move, which matters for the stale-cursor reset
-            /\ inst' = [inst EXCEPT ![i].t = I.t + 1,
+            /\ inst' = [inst EXCEPT ![i].t = I.t + 1, ![i].age = I.age + 1,
                                     ![i].impl = ImplStep(I.kind, I.p, I.impl, in).s]
             /\ Log(InToOp(i, in), [t |-> I.t + 1, taint |-> TRUE, e |-> Eff(I.kind, in)])
        ELSE LET r == RefStep(I.kind, I.p, I.ref, in)
@@ -103,10 +107,11 @@ Tok(i, tok) ==
            x == TokVal(tok)
            in == IF "s" \in Accepts(I.kind) THEN [ty |-> "s", x |-> x]
                  ELSE [ty |-> "b", o |-> x, h |-> x, l |-> x, c |-> x, v |-> 1]
-       IN /\ inst' = [inst EXCEPT ![i].taint = TRUE, ![i].t = I.t + 1,
-                                  \* only the comparison-based parts are modelled under non-finite input
-                                  ![i].impl = IF I.kind \in {"MIN", "MAX"}
-                                              THEN ImplStep(I.kind, I.p, I.impl, in).s ELSE I.impl]
+       IN /\ inst' = [inst EXCEPT ![i].taint = TRUE, ![i].t = I.t + 1, ![i].age = I.age + 1,
+                                  \* cursors, counters and ring contents keep moving (the token's integer code stands in
+                                  \* for the value; Minimum/Maximum compare it with IEEE semantics); no numeric
+                                  \* expectation is derived from this state until Reset re-initialises it
+                                  ![i].impl = ImplStep(I.kind, I.p, I.impl, in).s]
           /\ Log([op |-> "tok", i |-> i, x |-> tok], [t |-> I.t + 1, taint |-> TRUE])
     /\ UNCHANGED blobs
 
@@ -117,7 +122,7 @@ Reset(i) ==
                             \* the transcribed reset; where a poisoned numeric state cannot be modelled the
                             \* code's field-by-field zeroing is what is transcribed anyway
                             ![i].impl = ImplReset(I.kind, I.impl),
-                            ![i].t = 0, ![i].taint = FALSE, ![i].ro = <<>>, ![i].io = <<>>]
+                            ![i].t = 0, ![i].taint = FALSE, ![i].age = 0, ![i].ro = <<>>, ![i].io = <<>>]
     /\ Log([op |-> "reset", i |-> i], NoObs)
     /\ UNCHANGED blobs
 
@@ -166,18 +171,21 @@ Do(o) ==
     \/ o.op = "new" /\ New(o.i)
     \/ o.op = "drop" /\ Drop(o.i)
 
-Scripted == rest # <<>> /\ Do(Head(rest))
+Scripted == rest # <<>> /\ Do(Head(rest)) /\ rest' = Tail(rest)
 
 Free ==
-    \/ \E i \in Ids, in \in Inputs : Feed(i, in)
-    \/ \E i \in Ids, tok \in Toks : Tok(i, tok)
+    \/ \E i \in FreeIds, in \in Inputs : Feed(i, in)
+    \/ \E i \in FreeIds, tok \in Toks : Tok(i, tok)
     \/ \E i \in Resets : Reset(i)
     \/ \E pr \in Clones : Clone(pr[1], pr[2])
     \/ \E pr \in Saves : Save(pr[1], pr[2])
     \/ \E pr \in Restores : Restore(pr[1], pr[2])
     \/ \E i \in News : New(i)
 
-Next == IF UseScript THEN Scripted ELSE Free
+Next == IF rest # <<>> THEN Scripted
+        ELSE IF UseScript THEN FALSE
+        ELSE \/ Free /\ rest' = <<>>
+             \/ \E c \in Conts : Do(Head(c)) /\ rest' = Tail(c)
 
 Spec == Init /\ [][Next]_vars
 
@@ -185,8 +193,13 @@ Spec == Init /\ [][Next]_vars
 (* exploration control *)
 NoOvf == \A i \in Ids : Present(i) => ~RefBad(inst[i].kind, inst[i].ref) /\ ~ImplBad(inst[i].kind, inst[i].impl)
 Bounded == pos <= MaxDepth
+\* a tainted instance is followed for one window length (every position of the non-finite value in the
+\* window, every cursor position), then only Reset is of interest; this keeps the explored space finite
+TaintBound == \A i \in Ids : Present(i) => inst[i].age <= inst[i].p.n + 2
+\* bound on the freely explored part only (continuations always run to their end); models define FreeBound
+FreeDepthOf(b) == rest # <<>> \/ pos <= b
 \* the step counter and the histories are not part of the abstract state
-view == <<pos * (IF UseScript THEN 1 ELSE 0), [i \in Ids |-> IF Present(i) THEN [inst[i] EXCEPT !.t = 0] ELSE inst[i]],
+view == <<pos * (IF UseScript THEN 1 ELSE 0), rest, [i \in Ids |-> IF Present(i) THEN [inst[i] EXCEPT !.t = 0] ELSE inst[i]],
           [s \in Slots |-> IF blobs[s].kind # "none" THEN [blobs[s] EXCEPT !.t = 0] ELSE blobs[s]]>>
 
 \* one replayable behaviour per explored transition
